@@ -70,9 +70,9 @@ def run(ctx, chk):
         ub = ue
         # ---- E2 dependency set
         d = arith.deps(ub)
-        bound_l = '*self.bound_nsec'
-        drift_l = '*self.max_drift_ppb'
-        asof_l = '*self.as_of'
+        bound_l = fmt(m.leaf_self('bound_nsec'))
+        drift_l = fmt(m.leaf_self('max_drift_ppb'))
+        asof_l = fmt(m.leaf_self('as_of'))
         allowed = {bound_l, drift_l, asof_l}
         if mono is not None:
             allowed.add(fmt(mono))
@@ -163,7 +163,7 @@ def run(ctx, chk):
             else:
                 chk.ob('C05.E3', 'now:age-is-mono-minus-asof', is_age and lo >= 0, where,
                        'age = %s on a path where mono - as_of in [%s, %s]' % (lt, lo, hi))
-    chk.floor('C05.E1', 'Ok paths of now()', n_ok, 2)
+    chk.floor('C05.E1', 'Ok paths of now()', n_ok, 1)
 
     # ---- E6: both wrappers pass (earliest, latest, status) through
     ws = wrappers_model.load(fb, chk, 'C05.E6')
